@@ -20,6 +20,7 @@ Check(e) ==
         Fails(<< <<"C16 the header contains the complete flattened configuration (all values FITS can represent)",
                    \A k \in Keys(e.flat) : ValSame(Lookup(e.flat, k), Lookup(e.header, k))>> >>)
       [] e.kind = "recon" -> Fails(<< <<"C16 a stored results file can be reloaded into a configuration", e.ok>> >>)
+      [] e.kind = "plotload" -> Fails(<< <<"C16 stored results can be reloaded for plotting (show-plot --plotall on the file succeeds)", e.ok>> >>)
       [] e.kind = "end" ->
         IF PrintT(<<"WRONGFIELDS", WrongFields>>)
         THEN Fails(<< <<"C16 the reconstructed configuration agrees with the original on every field it reconstructs", ReconAgrees>> >>)
